@@ -38,10 +38,10 @@ hs_unitChar = hs_alpha | Word(u'%_/$' + u''.join([
     six.unichr(c)
     for c in range(0x0080, 0xffff)
 ]), exact=1)
-hs_unit = Combine(OneOrMore(hs_unitChar))
+hs_unit = Combine(OneOrMore(hs_unitChar)).leaveWhitespace()  # no blank between number and unit
 hs_digit = Regex(r'\d')
 hs_digits = Regex(r'[0-9_]+')
-hs_quantity = (hs_decimal + hs_unit).leaveWhitespace().setParseAction(
+hs_quantity = (hs_decimal + hs_unit).setParseAction(
     lambda toks: Quantity(toks[0], toks[1])
 )
 hs_number = hs_quantity | hs_decimal | Literal('INF') | Literal("-INF") | Literal("Nan")
